@@ -350,6 +350,7 @@ where
         let succ_node_names = self.successors.get(&name.clone()).unwrap_or(&empty_set);
         let pred_edges = pred_node_names
             .iter()
+            .filter(|pnn| **pnn != name)
             .flat_map(|pnn| self.edges.get(&(pnn.clone(), name.clone())).unwrap());
         let succ_edges: Vec<&Arc<Edge<T, A>>> = succ_node_names
             .iter()
